@@ -52,6 +52,8 @@ def main():
             patch = os.path.join(d, "patch.diff")
             if not os.path.isfile(patch):
                 continue
+            if os.environ.get("ONLY_NEW") and os.path.isfile(os.path.join(d, "confirm.json")):
+                continue
             meta = json.load(open(os.path.join(d, "meta.json")))
             res = {"property": pid, "mutant": m, "repo_head": sh("git rev-parse --short HEAD")[1].strip(), "ran": []}
             sh("git checkout -- . && git clean -fdq")
